@@ -10,6 +10,9 @@ and os.environ is snapshotted before/after.
 Histories also vary: one mapping object shared by several classes as Meta.field_to_env_var (`case['maps']`, `cls['map']`),
 Literal-typed fields whose type rejects some values (`case['lit']`, `f['typ']`), dotenv files / secrets directories that
 are edited between instantiations (ops `write` / `wdir`), and failure-then-recovery sequences (`Gen.recovery`).
+File-system histories (`Gen.fs_history`): dotenv files / secrets directories that do not exist at first, appear, change and
+disappear (`content: None`), files named relatively and found in the working directory or only above it (`case['rel']`,
+`level`), paths spelled as str / Path / with a `./` component, classes defined in the middle of a history (`late`, op `define`).
 """
 from __future__ import annotations
 
@@ -19,6 +22,7 @@ import re
 import shutil
 import tempfile
 import traceback
+from pathlib import Path
 
 from harness import common as C
 
@@ -215,7 +219,42 @@ def attribute(case, cls, prefix, kw, eff, outcome, exp, last_win):
 
 # --------------------------------------------------------------------------- implementation side (forked child)
 
-def class_source(i, cls, tmp):
+LEVEL_DIRS = ['a', 'b']     # relative mode: the working directory is <tmp>/a/b; level 0 = there, 1 = <tmp>/a, 2 = <tmp>
+
+
+def file_place(case, tmp, j, level=0):
+    """where dotenv file j lives on disk (relative mode: at `level` directories above the working directory)"""
+    if case.get('rel'):
+        return os.path.join(tmp, *LEVEL_DIRS[:len(LEVEL_DIRS) - level], f'f{j}.env')
+    return os.path.join(tmp, f'f{j}.env')
+
+
+def file_name(case, tmp, j, how):
+    """how the user NAMES dotenv file j: absolute, or (relative mode) by its bare name, looked up from the working directory
+    upwards; `spell` 1 puts a `./` component in; `pathkind` 'path' hands a pathlib.Path over instead of a str"""
+    name = f'f{j}.env'
+    if case.get('rel'):
+        s = './' + name if how.get('spell') else name
+    else:
+        s = os.path.join(tmp, '.', name) if how.get('spell') else os.path.join(tmp, name)
+    return Path(s) if how.get('pathkind') == 'path' else s
+
+
+def dir_name(tmp, j, how):
+    s = os.path.join(tmp, '.', f'd{j}') if how.get('spell') else os.path.join(tmp, f'd{j}')
+    return Path(s) if how.get('pathkind') == 'path' else s
+
+
+class PathSrc:
+    """repr = the source text of a path argument (`Path('...')` for pathlib paths; Path itself would normalise `./` away)"""
+    def __init__(self, p):
+        self.p = p
+
+    def __repr__(self):
+        return f'Path({str(self.p)!r})' if isinstance(self.p, Path) else repr(self.p)
+
+
+def class_source(i, cls, tmp, case=None):
     name = f'E{i}'
     lines = [f'class {name}(EnvWizard):']
     meta = []
@@ -224,10 +263,10 @@ def class_source(i, cls, tmp):
     if cls['prio'] != 'SCREAMING_SNAKE' or cls.get('prio_explicit'):     # the default is left implicit half of the time
         meta.append(f'        key_lookup_with_load = {cls["prio"]!r}')
     if cls.get('dotenv') is not None:
-        paths = [os.path.join(tmp, f'f{j}.env') for j in cls['dotenv']]
+        paths = [PathSrc(file_name(case or {}, tmp, j, cls)) for j in cls['dotenv']]
         meta.append(f'        env_file = {paths[0]!r}' if len(paths) == 1 and cls.get('single') else f'        env_file = {paths!r}')
     if cls.get('secrets') is not None:
-        paths = [os.path.join(tmp, f'd{j}') for j in cls['secrets']]
+        paths = [PathSrc(dir_name(tmp, j, cls)) for j in cls['secrets']]
         meta.append(f'        secrets_dir = {paths[0]!r}' if len(paths) == 1 and cls.get('single') else f'        secrets_dir = {paths!r}')
     f2v = {f['name']: (f['explicit'][0] if len(f['explicit']) == 1 else tuple(f['explicit']))
            for f in cls['fields'] if f.get('explicit') and f.get('via') == 'meta'}
@@ -303,27 +342,38 @@ def child_run(case, tmp):
     os.environ.clear()
     for k, v in case['os']:
         os.environ[k] = v
-    for j, content in enumerate(case['files']):
-        write_file(os.path.join(tmp, f'f{j}.env'), content)
-    for j, content in enumerate(case['dirs']):
-        write_dir(os.path.join(tmp, f'd{j}'), content)
     import sys
+    if case.get('rel'):
+        # relative dotenv names are looked up from the working directory upwards when python runs interactively
+        # (dotenv.find_dotenv; from a script: from the directory of the calling module, here the library's own)
+        os.makedirs(os.path.join(tmp, *LEVEL_DIRS))
+        os.chdir(os.path.join(tmp, *LEVEL_DIRS))
+        sys.ps1 = '>>> '
+    for j, content in enumerate(case['files']):
+        if content is not None:                 # None: the file does not exist (yet)
+            write_file(file_place(case, tmp, j, (case.get('flevels') or [0] * len(case['files']))[j]), content)
+    for j, content in enumerate(case['dirs']):
+        if content is not None:
+            write_dir(os.path.join(tmp, f'd{j}'), content)
     import types
     from typing import Literal
     mod = types.ModuleType('dwv_c18')
     sys.modules['dwv_c18'] = mod
     ns = mod.__dict__
-    ns.update({'EnvWizard': EnvWizard, 'env_field': env_field, 'json_field': json_field})
+    ns.update({'EnvWizard': EnvWizard, 'env_field': env_field, 'json_field': json_field, 'Path': Path})
     if case.get('lit'):
         ns['LIT'] = Literal[tuple(case['lit'])]
     maps = [map_dict(pairs) for pairs in case.get('maps') or []]
     for k, m in enumerate(maps):
         ns[f'MAP{k}'] = m
     classes = []
-    for i, cls in enumerate(case['classes']):
-        name, src = class_source(i, cls, tmp)
+    def define(i):
+        name, src = class_source(i, case['classes'][i], tmp, case)
         exec(compile(src, f'<c18:{name}>', 'exec'), ns)
-        classes.append(ns[name])
+        return ns[name]
+
+    for i, cls in enumerate(case['classes']):
+        classes.append(None if cls.get('late') else define(i))      # `late`: defined by a `define` operation of the history
     if os.environ.keys() != {k for k, _ in case['os']} or peek_state() != st0:
         raise RuntimeError('class creation touched the environment state')
     outs = []
@@ -336,10 +386,24 @@ def child_run(case, tmp):
             os.environ.pop(op['k'], None)
             outs.append({})
         elif t == 'write':
-            write_file(os.path.join(tmp, f'f{op["file"]}.env'), op['content'])
+            path = file_place(case, tmp, op['file'], op.get('level', 0))
+            if op['content'] is None:
+                if os.path.exists(path):
+                    os.unlink(path)
+            else:
+                write_file(path, op['content'])
             outs.append({})
         elif t == 'wdir':
-            write_dir(os.path.join(tmp, f'd{op["dir"]}'), op['content'])
+            if op['content'] is None:
+                shutil.rmtree(os.path.join(tmp, f'd{op["dir"]}'), ignore_errors=True)
+            else:
+                write_dir(os.path.join(tmp, f'd{op["dir"]}'), op['content'])
+            outs.append({})
+        elif t == 'define':
+            before, st = dict(os.environ), peek_state()
+            classes[op['cls']] = define(op['cls'])
+            if dict(os.environ) != before or peek_state() != st:
+                raise RuntimeError('class creation touched the environment state')
             outs.append({})
         elif t == 'reload':
             before = dict(os.environ)
@@ -355,13 +419,13 @@ def child_run(case, tmp):
             if 'envfile' in op:
                 ef = op['envfile']
                 kwargs['_env_file'] = False if ef == [] else (
-                    os.path.join(tmp, f'f{ef[0]}.env') if len(ef) == 1 and op.get('single') else
-                    [os.path.join(tmp, f'f{j}.env') for j in ef])
+                    file_name(case, tmp, ef[0], op) if len(ef) == 1 and op.get('single') else
+                    [file_name(case, tmp, j, op) for j in ef])
             if 'secretsdir' in op:
                 sd = op['secretsdir']
                 kwargs['_secrets_dir'] = None if sd == [] else (
-                    os.path.join(tmp, f'd{sd[0]}') if len(sd) == 1 and op.get('single') else
-                    [os.path.join(tmp, f'd{j}') for j in sd])
+                    dir_name(tmp, sd[0], op) if len(sd) == 1 and op.get('single') else
+                    [dir_name(tmp, j, op) for j in sd])
             before = dict(os.environ)
             try:
                 obj = cls(**kwargs)
@@ -626,6 +690,140 @@ class Gen:
         finally:
             self.p_explicit, self.explicit_k = 0.3, [1, 1, 2, 3]
 
+    def fs_history(self, max_ops):
+        """histories over the FILE SYSTEM.  The classes, the process environment and the pool of variable names are those of
+        `history`; what varies here is what is on disk when: a dotenv file / secrets directory may not exist at the first
+        instantiation that names it, is created later, rewritten, removed, created again; with relative names (`rel`) a file
+        lives in the working directory or only in a directory above it, and a nearer copy may appear or vanish; the path is
+        handed over as str or Path, plain or with a `./` component, the same spelling again and again or another one; a
+        class may be defined in the middle of the history (`late`), after files it names (Meta.env_file) or other classes
+        named came and went.  The oracle is `ref_resolve` on what is on disk at the moment of the instantiation (FsView)."""
+        rng = self.rng
+        base = self.history(4)
+        typed = 'lit' in base
+        self.bad, self.good, self.empty = (0.12 if typed else 0.0), [], 0.0
+        classes = base['classes']
+        pool = [k for k, _ in base['os']] + [k for c in base['files'] + base['dirs'] for k, _ in c] + \
+               [op['k'] for op in base['ops'] if op['t'] == 'set']
+        for cls in classes:
+            for k in ('dotenv', 'secrets', 'single'):
+                cls.pop(k, None)
+            p = cls.get('prefix') or ''
+            for f in cls['fields']:
+                pool += tiers(cls['prio'], p + f['name'])[:2] + [p + n for n in f.get('explicit') or []]
+        pool = sorted(set(n for n in pool if n and '=' not in n and '/' not in n))
+        ncls = len(classes)
+        nfiles, ndirs = rng.choice([1, 2, 2, 3]), rng.choice([0, 1, 1, 2])
+        rel = rng.random() < 0.35
+        levels = [0, 1, 2] if rel else [0]
+
+        def content(tag):
+            if rng.random() < 0.15:
+                return []
+            return [[n, self.tok(tag)] for n in rng.sample(pool, min(len(pool), rng.choice([1, 2, 2, 3])))]
+
+        def how():
+            return {'pathkind': rng.choice(['str', 'str', 'path']), 'spell': rng.choice([0, 0, 0, 1])}
+        files = [None if rng.random() < 0.6 else content('f') for _ in range(nfiles)]
+        flevels = [rng.choice(levels) for _ in range(nfiles)]
+        dirs = [None if rng.random() < 0.5 else content('s') for _ in range(ndirs)]
+        copies = [({} if c is None else {flevels[j]: c}) for j, c in enumerate(files)]
+        curd = list(dirs)
+        for cls in classes:
+            if rng.random() < 0.45:
+                cls['late'] = True
+            if rng.random() < 0.3:
+                cls['dotenv'] = rng.sample(range(nfiles), rng.choice([1, min(2, nfiles)]))
+            if ndirs and rng.random() < 0.3:
+                cls['secrets'] = rng.sample(range(ndirs), rng.choice([1, min(2, ndirs)]))
+            if 'dotenv' in cls or 'secrets' in cls:
+                cls.update(how(), single=rng.random() < 0.5)
+        defined = [i for i, cls in enumerate(classes) if not cls.get('late')]
+        # a file named by the Meta.env_file of a DEFINED class is left alone from then on (read when the class is created)
+        frozen = {j for i in defined for j in classes[i].get('dotenv') or []}
+        fav = dict(how(), envfile=rng.sample(range(nfiles), rng.choice([1, 1, min(2, nfiles)])), single=rng.random() < 0.5) \
+            if rng.random() < 0.7 else None
+        favd = dict(secretsdir=rng.sample(range(ndirs), rng.choice([1, ndirs]))) if ndirs and rng.random() < 0.5 else None
+        osenv = list(base['os'])
+        cur = {k for k, _ in osenv}
+        ops = []
+
+        def define(i):
+            ops.append({'t': 'define', 'cls': i})
+            defined.append(i)
+            frozen.update(classes[i].get('dotenv') or [])
+
+        def inst():
+            if not defined:
+                define(rng.randrange(ncls))
+            ci = rng.choice(defined)
+            op = {'t': 'inst', 'cls': ci, 'reload': rng.random() < 0.85, 'kw': [], 'single': rng.random() < 0.5}
+            for f in classes[ci]['fields']:
+                if rng.random() < 0.1:
+                    op['kw'].append([f['name'], self.tok('k')])
+            if rng.random() < 0.75:
+                if fav and rng.random() < 0.75:
+                    op.update(fav)
+                else:
+                    op.update(how(), envfile=rng.sample(range(nfiles), rng.choice([0, 1, 1, min(2, nfiles), nfiles])))
+            if ndirs and rng.random() < 0.45:
+                if favd and rng.random() < 0.7:
+                    op.update(favd)
+                else:
+                    op['secretsdir'] = rng.sample(range(ndirs), rng.choice([0, 1, 1, ndirs]))
+                if 'pathkind' not in op:
+                    op.update(how())
+            ops.append(op)
+
+        for _ in range(rng.randint(3, max_ops)):
+            x = rng.random()
+            free = [j for j in range(nfiles) if j not in frozen]
+            if x < 0.3 and (free or ndirs):
+                if free and (not ndirs or rng.random() < 0.7):
+                    j = rng.choice(free)
+                    here = sorted(copies[j])
+                    if here and rng.random() < 0.4:                       # a copy goes away
+                        lv = rng.choice(here)
+                        del copies[j][lv]
+                        ops.append({'t': 'write', 'file': j, 'level': lv, 'content': None})
+                    else:                                                 # a copy appears / is rewritten
+                        lv = rng.choice(levels)
+                        new = self.edit(copies[j][lv], pool, 'f') if lv in copies[j] and rng.random() < 0.6 else content('f')
+                        copies[j][lv] = new
+                        ops.append({'t': 'write', 'file': j, 'level': lv, 'content': new})
+                else:
+                    j = rng.randrange(ndirs)
+                    if curd[j] is not None and rng.random() < 0.4:
+                        curd[j] = None
+                    else:
+                        curd[j] = self.edit(curd[j], pool, 's') if curd[j] is not None and rng.random() < 0.6 else content('s')
+                    ops.append({'t': 'wdir', 'dir': j, 'content': curd[j]})
+            elif x < 0.38:
+                k = rng.choice(pool)
+                ops.append({'t': 'set', 'k': k, 'v': self.tok('o')})
+                cur.add(k)
+            elif x < 0.43 and cur:
+                k = rng.choice(sorted(cur))
+                ops.append({'t': 'del', 'k': k})
+                cur.discard(k)
+            elif x < 0.46:
+                ops.append({'t': 'reload'})
+            elif x < 0.54 and len(defined) < ncls:
+                define(rng.choice([i for i in range(ncls) if i not in defined]))
+            else:
+                inst()
+        if ops[-1]['t'] != 'inst':
+            inst()
+        case = {'os': osenv, 'files': files, 'dirs': dirs, 'classes': classes, 'ops': ops, 'fs': True, 'flevels': flevels}
+        if rel:
+            case['rel'] = True
+        if base.get('maps'):
+            case['maps'] = base['maps']
+        if typed:
+            case['lit'] = sorted(set(base['lit']) | set(self.good))
+        self.bad = self.empty = 0.0
+        return case
+
     def recovery(self, max_rounds):
         """failure, then recovery.  An instantiation fails — a value its field's type rejects (ParseError), a required field
         without any source (MissingVars), or both; then the user repairs the environment, spelling the repaired variable at
@@ -835,24 +1033,73 @@ def replay(obj):
 
 # --------------------------------------------------------------------------- run
 
+class FsView:
+    """what is on disk NOW, as the statement's oracle sees it: per dotenv file the content of the copy a lookup by its name
+    finds (absolute names: the file itself; relative names: the nearest copy from the working directory upwards), an absent
+    file / directory supplying nothing; and, per class with a Meta.env_file, the contents at the moment the class was created
+    (that is when the library reads them, see overlays_of)"""
+
+    def __init__(self, case):
+        lv = case.get('flevels') or [0] * len(case['files'])
+        self.copies = [({} if c is None else {lv[j]: c}) for j, c in enumerate(case['files'])]
+        self.dirs = [c or [] for c in case['dirs']]
+        self.case = case
+        self.meta = {}
+        for i, cls in enumerate(case['classes']):
+            if not cls.get('late'):
+                self.define(i)
+
+    @property
+    def files(self):
+        return [(c[min(c)] if c else []) for c in self.copies]
+
+    def define(self, i):
+        cls = self.case['classes'][i]
+        if cls.get('dotenv') is not None:
+            files = self.files
+            self.meta[i] = [files[j] for j in cls['dotenv']]
+
+    def apply(self, op):
+        """-> True when `op` is an operation on the file system / a class definition (no operation of the library)"""
+        if op['t'] == 'write':
+            if op['content'] is None:
+                self.copies[op['file']].pop(op.get('level', 0), None)
+            else:
+                self.copies[op['file']][op.get('level', 0)] = op['content']
+        elif op['t'] == 'wdir':
+            self.dirs[op['dir']] = op['content'] or []
+        elif op['t'] == 'define':
+            self.define(op['cls'])
+        else:
+            return False
+        return True
+
+
+def meta_snapshots(case):
+    fs = FsView(case)
+    for op in case['ops']:
+        fs.apply(op)
+    return fs.meta
+
+
 def model_request(case, outs, quirks):
     """the case as the driver wants it; `rank` of every op = the winners observed in cleaned_to_env afterwards"""
     classes = []
-    for cls in case['classes']:
+    snap = meta_snapshots(case)       # a never-defined class is never instantiated: its overlay is immaterial
+    for ci, cls in enumerate(case['classes']):
         classes.append({'fields': [{'name': f['name'], 'explicit': f.get('explicit'), 'dflt': f['dflt']} for f in cls['fields']],
                         'prefix': cls.get('prefix') or '', 'prio': cls['prio'],
-                        'dotenv': None if cls.get('dotenv') is None else [case['files'][j] for j in cls['dotenv']],
-                        'secrets': None if cls.get('secrets') is None else [case['dirs'][j] for j in cls['secrets']]})
+                        'dotenv': None if cls.get('dotenv') is None else snap.get(ci, [[] for _ in cls['dotenv']]),
+                        'secrets': None if cls.get('secrets') is None else [case['dirs'][j] or [] for j in cls['secrets']]})
     ops = []
-    files, dirs = list(case['files']), list(case['dirs'])      # contents as they are when an operation runs
+    fs = FsView(case)                 # contents as they are when an operation runs
     for op, o in zip(case['ops'], outs):
         rank = sorted(v for _, v in ((o.get('state') or {}).get('cleaned') or []))
+        files, dirs = fs.files, fs.dirs
         if op['t'] in ('set', 'del'):
             ops.append(op)
-        elif op['t'] == 'write':
-            files[op['file']] = op['content']
-        elif op['t'] == 'wdir':
-            dirs[op['dir']] = op['content']
+        elif fs.apply(op):
+            pass
         elif op['t'] == 'reload':
             ops.append({'t': 'reload', 'rank': rank})
         else:
@@ -899,17 +1146,19 @@ def canon_out(o):
     return o
 
 
-def overlays_of(case, cls, op, files=None, dirs=None):
+def overlays_of(case, cls, op, files=None, dirs=None, meta=None):
     """contents of the overlays an instantiation sees; `files` / `dirs` = the contents at that moment (default: as created).
     Files named by Meta.env_file are taken as they were when the class was created: that is when the library reads them
     (findings/meta-env-file-read-once.md); the generators never rewrite such a file."""
-    files = case['files'] if files is None else files
-    dirs = case['dirs'] if dirs is None else dirs
+    files = [c or [] for c in case['files']] if files is None else files
+    dirs = [c or [] for c in case['dirs']] if dirs is None else dirs
     sec = op['secretsdir'] if 'secretsdir' in op else (cls.get('secrets') or [])
     if 'envfile' in op:
         dots = [dict(files[j]) for j in op['envfile']]
+    elif meta is not None:
+        dots = [dict(c) for c in meta]
     else:
-        dots = [dict(case['files'][j]) for j in (cls.get('dotenv') or [])]
+        dots = [dict(case['files'][j] or []) for j in (cls.get('dotenv') or [])]
     return [dict(dirs[j]) for j in sec], dots
 
 
@@ -923,7 +1172,9 @@ def evaluate(ctx, i, case, res, quirks, reqs, pend):
     osenv = dict(case['os'])
     collide = False
     last_win = {}
-    files, dirs = list(case['files']), list(case['dirs'])
+    fs = FsView(case)
+    if case.get('fs'):
+        ctx.count('history_over_the_file_system')
     if case.get('maps'):
         ctx.count('history_with_shared_mapping')
         want = [sorted([n, list(ex)] for n, ex in pairs) for pairs in case['maps']]
@@ -938,11 +1189,7 @@ def evaluate(ctx, i, case, res, quirks, reqs, pend):
         if op['t'] == 'del':
             osenv.pop(op['k'], None)
             continue
-        if op['t'] == 'write':
-            files[op['file']] = op['content']
-            continue
-        if op['t'] == 'wdir':
-            dirs[op['dir']] = op['content']
+        if fs.apply(op):
             continue
         if not o['os_same']:
             ctx.fail('os-untouched', case, f'os.environ differs after operation #{k} ({op["t"]})')
@@ -951,7 +1198,7 @@ def evaluate(ctx, i, case, res, quirks, reqs, pend):
             continue
         cls = case['classes'][op['cls']]
         prefix = (op['prefix'] if 'prefix' in op else cls.get('prefix')) or ''
-        secs, dots = overlays_of(case, cls, op, files, dirs)
+        secs, dots = overlays_of(case, cls, op, fs.files, fs.dirs, fs.meta.get(op['cls']))
         kw = dict(op['kw'])
         exp = ref_resolve(osenv, secs, dots, cls, prefix, kw)
         o['pyref'] = [[n, e] for n, e in exp]
@@ -974,7 +1221,7 @@ def evaluate(ctx, i, case, res, quirks, reqs, pend):
             ctx.count('inst_cached')
         last_win.update(dict(o['state']['cleaned'] or []))
     ctx.seen('history', case, nontrivial=True)
-    names = [k for k, _ in case['os']] + [k for c in case['files'] + case['dirs'] for k, _ in c] + [op['k'] for op in case['ops'] if op['t'] == 'set']
+    names = [k for k, _ in case['os']] + [k for c in case['files'] + case['dirs'] for k, _ in c or []] + [op['k'] for op in case['ops'] if op['t'] == 'set']
     if any(re.search(r'[^A-Za-z0-9_-]', k) for k in names):
         ctx.count('history_with_near_miss_names')
     if collide:
@@ -989,6 +1236,8 @@ def _pick_family(g, rng, max_ops):
         return g.recovery(3)
     if x < 0.33:
         return g.mapped(max_ops)
+    if x < 0.55:
+        return g.fs_history(max_ops)
     return g.history(max_ops)
 
 
@@ -1019,7 +1268,13 @@ def run(ctx: C.Ctx):
                 'stripped, value converted by the value type) and vs the Lean EnvLoader model. LEAF TYPES IN POSITIONS: a str / int / float / '
                 'bool / bytes / bytearray leaf - bare, Optional, in the comma / k=v shorthand of list / set / dict / TypedDict / nested '
                 'dataclass, inside the JSON forms and the mixed forms - from each of the four sources: every leaf of the result is the '
-                'documented conversion of its string (bytes / bytearray: the utf-8 encoding), also vs the Lean EnvLoader model.')
+                'documented conversion of its string (bytes / bytearray: the utf-8 encoding), also vs the Lean EnvLoader model. '
+                'HISTORIES OVER THE FILE SYSTEM (Gen.fs_history, about a fifth of the random histories): dotenv files / secrets directories '
+                'that do not exist at the first instantiation naming them, appear, are rewritten, removed and created again; dotenv files '
+                'named relatively (interactive interpreter: looked up from the working directory upwards) whose nearest copy is in the '
+                'working directory or one / two levels above and changes as copies come and go; paths as str / Path, plain or with a '
+                '`./` component, the same spelling repeatedly or another one; classes defined in the middle of the history (incl. with a '
+                'Meta.env_file naming a file that was absent earlier). Oracle: ref_resolve on what is on disk at that moment.')
     quirks, probes = probe_quirks()
     ctx.notes['quirks_probed'] = quirks
     ctx.trusted += ['C18: python-dotenv parses `KEY=value` lines and Path.read_text returns the secret file content verbatim (overlay '
@@ -1078,7 +1333,7 @@ def run(ctx: C.Ctx):
             if 'r' not in o:
                 ctx.agree('history', case, 'impl', {'driver_error': o.get('err')})
                 continue
-            sent = [(k, op, io) for k, (op, io) in enumerate(zip(case['ops'], impl_outs)) if op['t'] not in ('write', 'wdir')]
+            sent = [(k, op, io) for k, (op, io) in enumerate(zip(case['ops'], impl_outs)) if op['t'] not in ('write', 'wdir', 'define')]
             for (k, op, io), mo in zip(sent, o['r']['outs']):     # file / directory rewrites are not operations of the model
                 if op['t'] in ('set', 'del'):
                     continue
